@@ -125,7 +125,7 @@ func (m *Machine) ensureInit(pkg *ssa.Package) {
 // runNested runs fn to completion on a temporary thread (used for package init).
 func (m *Machine) runNested(fn *ssa.Function, args []Value, isInit bool) Value {
 	saved := m.cur
-	t := &Thread{ID: -1, Name: "nested:" + fn.String()}
+	t := &Thread{ID: -1, NID: -1, Name: "nested:" + fn.String()}
 	var result Value
 	fr := m.newFrame(fn, args, nil)
 	fr.onReturn = func(res Value) { result = res }
